@@ -1342,6 +1342,12 @@ class Interp:
                     return deref(args[1])
                 if last in ('map', 'and_then', 'is_some_and', 'filter', 'is_none_or'):
                     return self.option_hof(m, f, t, last, x, args)
+                if last == 'unwrap_or_else' and x.variant == 'None':
+                    # runs the closure (no argument); its result is the value
+                    some = self.option_hof(m, f, t, 'map', Agg('core::option::Option', 'Some', [NOTHING_VAL]), args, unit_arg=True)
+                    if isinstance(some, Agg) and some.variant == 'Some':
+                        return some.fields[0]
+                    return TOP
             return TOP
         if re.search(r'Try>::branch$|Try::branch$', path) or re.search(r'Try>::branch$', rpath):
             x = a0d
